@@ -546,6 +546,31 @@ def adversarial_docs(ck, base_docs):
                         doc = "\n".join(lines[:li] + [newline] + lines[li + 1:])
                         docs.append({"fmt": fmt, "text": doc, "pos": [li, ti], "payload": p, "mode": mode,
                                      "write": "xcfg" if fmt == "xcfg" else None})
+    # context-breaking spellings on every word-like field (record keywords, format / space-group / element names):
+    # a field that reaches a code template (`import %s`, `getattr(o, "%s")`, `'%s' % ...`) needs to close that
+    # context before the payload can run
+    BREAK = [("stmt", "%s;%s#"), ("asname", "%s;pm=%s#"), ("quote1", "%s');%s#"), ("quote2", '%s");%s#'), ("paren", "%s)or(%s")]
+    for fmt, text in base_docs:
+        if fmt == "cif":
+            continue
+        lines = text.split("\n")
+        for li, line in enumerate(lines):
+            toks = line.split()
+            for ti, tok in enumerate(toks):
+                try:
+                    float(tok)
+                    continue
+                except ValueError:
+                    pass
+                for k, (mode, tpl) in enumerate(BREAK):
+                    if quick and (li + ti + k) % 2 and mode not in ("stmt", "asname"):
+                        continue
+                    p = PAY[0] if quick else PAY[(li + ti + k) % len(PAY)]
+                    tt = list(toks)
+                    tt[ti] = tpl % (tok, p)
+                    newline = line[:len(line) - len(line.lstrip())] + " ".join(tt)
+                    docs.append({"fmt": fmt, "text": "\n".join(lines[:li] + [newline] + lines[li + 1:]), "pos": [li, ti],
+                                 "payload": tt[ti], "mode": "break:" + mode, "write": "xcfg" if fmt == "xcfg" else None})
     # CIF operator positions
     for p in PAY_OP:
         for form in ("'x, y, z+%s'", "'%s, y, z'", "'x, 1/2+%s, z'", "'x, y, %s/2'", "'x, y, z' \n'x,y,1/%s'"):
@@ -640,6 +665,9 @@ def base_documents():
     for f in ("xyz", "rawxyz", "pdffit", "discus", "pdb", "xcfg"):
         docs.append((f, s.writeStr(f)))
     docs.append(("cif", CIF_BASE))
+    # optional records the writers do not emit but the readers interpret
+    disc = s.writeStr("discus").split("\n")
+    docs.append(("discus", "\n".join(disc[:1] + ["format discus"] + disc[1:])))
     return docs
 
 
